@@ -14,6 +14,11 @@ CLAIMED = {
         ref="§3 C08"),
 }
 
+CLAIMED["C18"] = dict(
+    technique="static analysis: variant-set dataflow over MIR (finite evaluation of the transition / status / min_status match tables over all discriminant tuples), who-may-write census and forward-transition classification of every write to the query-state map, avoid-reachability (removed => re-inserted), dominator ordering of the RAII guard",
+    text="The transition relation is evaluated over all 36 variant pairs and accepted only when strictly forward; every insert into the map of running queries is a transition() result, an identity re-insert or a forward (from<to) replacement with `from` refined per path; every removal re-inserts on all paths except the designated forgetting ones; the new_query cleanup guard covers every fallible step; min_status is the meet for all 25 pairs. Decides the store/transition discipline, not the absence of panics over arbitrary histories.",
+    ref="§3 C18")
+
 NOT_APPLICABLE = {
     "C01": "end-to-end numerical equality of the MPC histogram with a plaintext reference over all inputs/shardings: no clause of it is visible in code shape; static analysis in reach cannot bound it (DESIGN.md §4)",
     "C07": "functional correctness of arithmetic/Boolean circuits over all operand values is numerical; would need symbolic execution of the circuits, a different technique family (DESIGN.md §4)",
